@@ -121,6 +121,16 @@ int main(int argc, char** argv) {
             else if (W == 16) word<uint16_t, int16_t, 16>(out, (uint16_t)v);
             else if (W == 32) word<unsigned, int, 32>(out, (unsigned)v);
             else word<unsigned long long, long long, 64>(out, v);
+        } else if (kind == 'B') {
+            // popcount(const void* data, size_t size): the buffer starts at every alignment within a word (the implementation consumes 8-, 4- and 1-byte units)
+            size_t n; is >> n; std::vector<long long> bytes(n); for (auto& b : bytes) is >> b;
+            std::vector<long long> res;
+            for (size_t off = 0; off < 8; ++off) {
+                std::vector<unsigned char> buf(off + n + 8, 0xFF);
+                for (size_t i = 0; i < n; ++i) buf[off + i] = (unsigned char)bytes[i];
+                res.push_back((long long)tlx::popcount(static_cast<const void*>(buf.data() + off), n));
+            }
+            Ev e("popbuf"); e.arr("bytes", bytes).arr("res", res); e.emit(out);
         } else if (kind == 'S') {
             long long a, b; is >> a >> b;
             Ev e("small"); e.num("a", a).num("b", b).num("sgn", tlx::sgn((int)a)).num("abs_diff", tlx::abs_diff<int>((int)a, (int)b));
